@@ -129,3 +129,24 @@ def public_state(ac) -> dict:
         "display_on": ac.display_on, "filter_alert": ac.filter_alert,
         "indoor_temperature": ac.indoor_temperature, "outdoor_temperature": ac.outdoor_temperature,
     }
+
+
+class debug_logging:
+    """Context manager: msmart's loggers at DEBUG level into a null handler (a configuration some applications run with)."""
+
+    def __enter__(self):
+        self.lg = logging.getLogger("msmart")
+        self.old = (self.lg.level, self.lg.propagate, list(self.lg.handlers))
+        self.h = logging.NullHandler()
+        self.lg.addHandler(self.h)
+        self.lg.setLevel(logging.DEBUG)
+        self.lg.propagate = False
+        logging.disable(logging.NOTSET)
+        return self
+
+    def __exit__(self, *a):
+        logging.disable(logging.CRITICAL)
+        self.lg.removeHandler(self.h)
+        self.lg.setLevel(self.old[0])
+        self.lg.propagate = self.old[1]
+        return False
